@@ -61,6 +61,53 @@ def no_swallowed_backend_errors(ctx, rule, scope_pred=None, what='backend'):
     return n_reach
 
 
+def handlers_use_bound_names(ctx, rule, funcs, what):
+    """An exception handler (or finally block) that cleans up after a failed attempt runs whatever statement of the try
+    body failed - including the first.  A local it reads must therefore be bound BEFORE the try: if the try body itself
+    binds it (`temp = make_temp()` moved inside the try), a failure of that very statement makes the handler raise
+    UnboundLocalError, which replaces the real error - and, in a retried function, ends the retry loop."""
+    import builtins
+    from ..cfg import reaching_defs
+
+    n = 0
+    for f in funcs:
+        a = f.node.args
+        params = {x.arg for x in a.posonlyargs + a.args + a.kwonlyargs} | ({a.vararg.arg} if a.vararg else set()) | ({a.kwarg.arg} if a.kwarg else set())
+        local_names = {x.id for x in walk_local(f.node) if isinstance(x, ast.Name) and isinstance(x.ctx, ast.Store)}
+        for t in walk_local(f.node):
+            if not isinstance(t, ast.Try):
+                continue
+            blocks = [(h, h.body) for h in t.handlers] + ([(t, t.finalbody)] if t.finalbody else [])
+            for owner, body in blocks:
+                seen = set()
+                for st in body:
+                    for u in ast.walk(st):
+                        if not (isinstance(u, ast.Name) and isinstance(u.ctx, ast.Load)) or u.id in seen:
+                            continue
+                        if u.id in params or u.id not in local_names or hasattr(builtins, u.id):
+                            continue
+                        if isinstance(owner, ast.ExceptHandler) and owner.name == u.id:
+                            continue
+                        # only names the try body binds are of interest
+                        binds_in_try = any(isinstance(x, ast.Name) and x.id == u.id and isinstance(x.ctx, ast.Store) for b in t.body for x in ast.walk(b))
+                        if not binds_in_try:
+                            continue
+                        seen.add(u.id)
+                        n += 1
+                        rd = reaching_defs(f.node, u) or []
+                        ctx.check(
+                            'entry' not in rd,
+                            rule,
+                            f'{func_label(f)}|cleanup-reads-bound-names:{u.id}',
+                            loc(f, u),
+                            f'{what}: `{u.id}` is bound on every path into the clean-up code that reads it',
+                            f'{what}: the clean-up code of {f.qual} reads `{u.id}`, which the try body itself binds: when the binding statement (or one before it) fails, the handler raises UnboundLocalError '
+                            'instead of re-raising the real error - a transient fault at that point is not retried',
+                        )
+    ctx.count('cleanup_reads_of_try_bound_names', n)
+    return n
+
+
 def late_binding_closures(ctx, rule, funcs, what):
     """A lambda / nested function created inside a loop that refers to the loop variable and outlives the iteration (it is
     stored or handed on, not called on the spot) sees the variable's LAST value when it finally runs: every closure made
